@@ -560,4 +560,42 @@ theorem sortOffsets_length (l : List Int64) : (sortOffsets l).length = l.length 
   | cons x xs ih => simp [sortOffsets, insertSorted_length, ih]
 
 
+/-! ### Part F: the caps and the real product -/
+
+theorem fin_roundNE_eq_rnd {m q : Rat} (h : F64.fin m = roundNE q) : m = rnd q := by
+  rcases roundNE_class q with ⟨e, _⟩ | ⟨e, _⟩ | ⟨_, e, _⟩
+  · rw [e] at h; cases h
+  · rw [e] at h; cases h
+  · rw [← h] at e; exact e
+
+/-- the cap is the real product up to one rounding: relative error at most 2^-53 -/
+theorem cap_rel_err {f d m : Rat} (hf : 1 < f) (hd : 1 ≤ d) (h : F64.fin m = roundNE (f * d)) :
+    (m - f * d).abs ≤ (f * d) / pow2 53 := by
+  have e := fin_roundNE_eq_rnd h
+  have hpos : 1 ≤ f * d := by
+    have := Rat.mul_le_mul_of_nonneg_left hd (show (0:Rat) ≤ f by grind)
+    grind
+  have habs : (f * d).abs = f * d := by
+    simp only [Rat.abs]; split <;> grind
+  have hsmall : pow2 (-1022) ≤ (f * d).abs := by
+    rw [habs]
+    have : pow2 (-1022) ≤ pow2 0 := pow2_mono (by decide)
+    rw [pow2_zero] at this
+    grind
+  have := rnd_err_rel hsmall
+  rw [habs, ← e] at this
+  exact this
+
+theorem drift_d_ge_one {x : Int64} {d : Rat} (h : f64OfDur x = .fin d) (hx : 0 < x.toInt) : 1 ≤ d := by
+  have := ofInt_mono (show (1 : Int) ≤ x.toInt by omega)
+  unfold f64OfDur at h
+  rw [h, ofInt_exact (by decide) (by decide)] at this
+  simpa using le_fin_iff.mp this
+
+theorem drift_d_exact {x : Int64} {d : Rat} (h : f64OfDur x = .fin d) (hx : 0 < x.toInt)
+    (h53 : x.toInt ≤ 2^53) : d = (x.toInt : Rat) := by
+  unfold f64OfDur at h
+  rw [ofInt_exact (by omega) (by omega)] at h
+  cases h; rfl
+
 end ScionTime.Sync
